@@ -87,7 +87,76 @@ def r_escape():
     lib.write_gen("EscapeTables", "\n".join(out))
 
 
+def coq_string(s: str) -> str:
+    assert all(32 <= ord(c) < 127 and c != '"' for c in s), s
+    return '"' + s + '"'
+
+
+def plumbing_tables():
+    """argparse actions, Config fields, generate() parameters, and the keyword map of the generate(...) call
+    in main() (read from the AST of __main__.main, cross-checked behaviourally by harness/props/c18.py)."""
+    import ast
+    import inspect
+    lib.ensure_repo_on_path()
+    import datamodel_code_generator as d
+    from datamodel_code_generator import __main__ as m
+    from datamodel_code_generator.arguments import arg_parser
+
+    actions = []
+    for a in arg_parser._actions:
+        kind = type(a).__name__
+        actions.append((a.dest, kind, a.default is None, sorted(a.option_strings)))
+    fields = sorted(m.Config.get_fields())
+    params = list(inspect.signature(d.generate).parameters)
+    src = inspect.getsource(m.main)
+    tree = ast.parse(src)
+    calls = [n for n in ast.walk(tree) if isinstance(n, ast.Call) and isinstance(n.func, ast.Name) and n.func.id == "generate"]
+    if len(calls) != 1:
+        raise ValueError("expected exactly one generate(...) call in main()")
+    fwd = []
+    for kw in calls[0].keywords:
+        if kw.arg is None:
+            raise ValueError("**kwargs in generate(...) call")
+        srcs = sorted({n.attr for n in ast.walk(kw.value) if isinstance(n, ast.Attribute) and isinstance(n.value, ast.Name) and n.value.id == "config"})
+        if not srcs:
+            # a local variable computed from config.<name> earlier in main (aliases, extra_template_data, ...)
+            names = [n.id for n in ast.walk(kw.value) if isinstance(n, ast.Name)]
+            srcs = [nm for nm in names if nm in fields]
+        for f in srcs:
+            fwd.append((kw.arg, f))
+    # config fields main() consumes itself (config.<f> outside the generate call)
+    call_nodes = {id(n) for n in ast.walk(calls[0])}
+    handled = sorted({n.attr for n in ast.walk(tree) if isinstance(n, ast.Attribute) and isinstance(n.value, ast.Name)
+                      and n.value.id == "config" and id(n) not in call_nodes})
+    # every return in an except handler / the else branch of the try around generate()
+    rets = []
+    for n in ast.walk(tree):
+        if isinstance(n, ast.Try) and any(isinstance(x, ast.Call) and getattr(x.func, "id", None) == "generate" for b in n.body for x in ast.walk(b)):
+            for h in n.handlers:
+                r = [x for x in ast.walk(h) if isinstance(x, ast.Return)]
+                rets.append((ast.unparse(h.type) if h.type else "bare", [ast.unparse(x.value) for x in r]))
+            rets.append(("else", [ast.unparse(x.value) for b in n.orelse for x in ast.walk(b) if isinstance(x, ast.Return)]))
+    return {"actions": actions, "fields": fields, "params": params, "fwd": fwd, "handled": handled, "rets": rets,
+            "exit": {e.name: int(e.value) for e in m.Exit}}
+
+
+def r_plumbing():
+    t = plumbing_tables()
+    S = coq_string
+    out = ["(* GENERATED on every run by /verif/harness/reflect.py from arguments.py, __main__.py and generate(). *)\nFrom Coq Require Import List String Bool.\nImport ListNotations.\nOpen Scope string_scope.\n"]
+    out.append("Definition cli_actions : list (string * string * bool) := [" + "; ".join(f"({S(d)}, {S(k)}, {lib.coq_bool(n)})" for d, k, n, _ in t["actions"]) + "].\n")
+    out.append("Definition config_fields : list string := [" + "; ".join(S(f) for f in t["fields"]) + "].\n")
+    out.append("Definition generate_params : list string := [" + "; ".join(S(f) for f in t["params"]) + "].\n")
+    out.append("Definition forward_map : list (string * string) := [" + "; ".join(f"({S(k)}, {S(f)})" for k, f in t["fwd"]) + "].\n")
+    out.append("Definition handled_in_main : list string := [" + "; ".join(S(f) for f in t["handled"]) + "].\n")
+    def code(r):
+        return {"Exit.OK": t["exit"]["OK"], "Exit.ERROR": t["exit"]["ERROR"]}.get(r, 99)
+    out.append("Definition handler_returns : list (string * list nat) := [" + "; ".join(f"({S(h)}, [{'; '.join(str(code(r)) for r in rs)}])" for h, rs in t["rets"]) + "].\n")
+    lib.write_gen("PlumbingTables", "\n".join(out))
+
+
 REFLECTORS = {
+    "PlumbingTables": r_plumbing,
     "EscapeTables": r_escape,
     "UnicodeTables": r_unicode,
     "BaseModelAttrs": r_basemodel_attrs,
